@@ -789,6 +789,9 @@ def nd_reshape(ex, self, args, kw):
                               "cannot reshape array: size mismatch")
     elif new_total != total:
         raise SymRaise("ValueError", "cannot reshape array")
+    if self.ndim == len(shape) and all(as_const(to_z3(x) == to_z3(y)) is True for x, y in zip(self.shape, shape)):
+        e, i = self.snapshot()
+        return NDArray(shape, e, self.dtype, i)       # same shape: identity (any order)
     if self.ndim == 1:
         e, i = self.snapshot()
         if order == "F":
@@ -807,7 +810,7 @@ def nd_reshape(ex, self, args, kw):
 
         def el(idx, which=0):
             flat = idx[0] * m1 + idx[1]
-            return (e if which == 0 else i)((to_z3(flat) / to_z3(n1), to_z3(flat) % to_z3(n1)))
+            return (e if which == 0 else i)(ex.ctx.quot(flat, n1))
         return NDArray(shape, el, self.dtype, lambda idx: el(idx, 1))
     raise Unsupported(f"reshape of rank {self.ndim} array with order {order}")
 
@@ -878,17 +881,17 @@ def np_repeat(ex, args, kw):
     r3 = to_z3(reps)
     if is_z3(reps):
         ex.ctx.check_or_raise(r3 >= 0, "ValueError", "repeats may not contain negative values")
+    Q = lambda t: ex.ctx.quot(t, reps)[0]
     if axis is None:
         # flattens in C order first
         if a.ndim == 1:
-            return NDArray([a.shape[0] * reps], lambda idx: e((to_z3(idx[0]) / r3,)), a.dtype,
-                           lambda idx: i((to_z3(idx[0]) / r3,)))
+            return NDArray([a.shape[0] * reps], lambda idx: e((Q(idx[0]),)), a.dtype, lambda idx: i((Q(idx[0]),)))
         if a.ndim == 2:
             n1 = a.shape[1]
 
             def src(idx):
-                q = to_z3(idx[0]) / r3
-                return (q / to_z3(n1), q % to_z3(n1))
+                q = Q(idx[0])
+                return ex.ctx.quot(q, n1)
             return NDArray([a.shape[0] * n1 * reps], lambda idx: e(src(idx)), a.dtype, lambda idx: i(src(idx)))
         raise Unsupported("np.repeat without axis on rank > 2")
     ax = axis % a.ndim
@@ -896,7 +899,7 @@ def np_repeat(ex, args, kw):
     shape[ax] = shape[ax] * reps
 
     def src(idx):
-        return tuple((to_z3(x) / r3) if d == ax else x for d, x in enumerate(idx))
+        return tuple(Q(x) if d == ax else x for d, x in enumerate(idx))
     return NDArray(shape, lambda idx: e(src(idx)), a.dtype, lambda idx: i(src(idx)))
 
 
